@@ -139,6 +139,13 @@ class ExprMixin:
             return Const(('builtin', name))
         return nf.sym(name)
 
+    def _eval_module_value(self, val, state):
+        """value of a module-level constant expression; the objects it builds (records in a table) keep their fields"""
+        v = self.eval(val, state)
+        if state.heap:
+            self.__dict__.setdefault('global_heap', {}).update(state.heap)
+        return v
+
     def target_value(self, tgt, name):
         if isinstance(tgt, ClassInfo):
             # class X(NamedTuple): a: T; b: T  - a tuple whose items answer to the annotated names
@@ -197,7 +204,7 @@ class ExprMixin:
                 prev, self.cur = self.cur, _ModuleScope(m, self.cur)
                 try:
                     from .state import State
-                    return self.eval(val, State())
+                    return self._eval_module_value(val, State())
                 except Exception:
                     pass
                 finally:
@@ -208,7 +215,7 @@ class ExprMixin:
                 prev, self.cur = self.cur, _ModuleScope(m, self.cur)
                 try:
                     from .state import State
-                    v_ = self.eval(val, State())
+                    v_ = self._eval_module_value(val, State())
                     if isinstance(v_, Const) and isinstance(v_.value, tuple) and v_.value[0] == 'partial':
                         return v_
                 except Exception:
@@ -222,7 +229,7 @@ class ExprMixin:
                 prev, self.cur = self.cur, _ModuleScope(m, self.cur)
                 try:
                     from .state import State
-                    return self.eval(val, State())
+                    return self._eval_module_value(val, State())
                 except Exception:
                     pass
                 finally:
@@ -235,7 +242,7 @@ class ExprMixin:
                 prev, self.cur = self.cur, _ModuleScope(m, self.cur)
                 try:
                     from .state import State
-                    return self.eval(val, State())
+                    return self._eval_module_value(val, State())
                 except Exception:
                     return nf.sym(f'{m.name}.{nm}')
                 finally:
@@ -615,7 +622,7 @@ class ExprMixin:
                         prev, self.cur = self.cur, _ModuleScope(c.module, self.cur)
                         try:
                             from .state import State
-                            return self.eval(val, State())
+                            return self._eval_module_value(val, State())
                         except Exception:
                             pass
                         finally:
@@ -666,6 +673,8 @@ class ExprMixin:
         key = at.single_atom()
         if key in st.heap:
             return st.heap[key]
+        if key in getattr(self, 'global_heap', {}):
+            return self.global_heap[key]          # a field of a record built by a module-level table
         if name == 'T':
             return app('T', pb)
         if name in ('real', 'imag'):
